@@ -3,6 +3,8 @@ import ast
 
 from xlsa import Unmodelled, AnchorMissing
 from xlsa.load import walk_local, names_in, dotted
+from xlsa.consteval import Ref
+from xlsa.guards import Interp, Rec, PyModel, Opaque
 from xlsa import flow
 from .common import func_params, value_returns, last_return
 
@@ -34,151 +36,159 @@ def _extract(ctx):
     return mm, fn, p[0], ext
 
 
+def _model(cells=None, defined_names=None):
+    """Abstract Model instance: the four maps; its real methods are inlined on demand, build_code is counted."""
+    return Rec(cls='pkg:model:Model', cells=cells if cells is not None else {}, defined_names=defined_names if defined_names is not None else {},
+               formulae={}, ranges={}, built=0)
+
+
+def _is_model(v):
+    return isinstance(v, Rec) and v.f.get('cls') == 'pkg:model:Model'
+
+
+def _cell(addr, terms=None, label=None):
+    formula = Rec(cls='pkg:xltypes:XLFormula', terms=list(terms), formula='=' + '+'.join(terms), ast=None) if terms is not None else None
+    return Rec(cls='pkg:xltypes:XLCell', address=addr, formula=formula, value=label or addr, origin=addr)
+
+
+def _deepcopy(obj):
+    """Model of copy.deepcopy on abstract objects: a distinct object that remembers what it was copied from."""
+    if isinstance(obj, Rec):
+        new = Rec(**{k: (_deepcopy(v) if isinstance(v, Rec) else (list(v) if isinstance(v, list) else v)) for k, v in obj.f.items()})
+        new.set('copied_from', obj)
+        return new
+    if isinstance(obj, list):
+        return [_deepcopy(x) for x in obj]
+    if isinstance(obj, dict):
+        return {k: _deepcopy(v) for k, v in obj.items()}
+    return obj
+
+
+def _run_extract(ctx, cells, names, focus):
+    mm = ctx.mod('model')
+    fn = mm.func('ModelCompiler.extract')
+    p = func_params(fn)
+    model = _model(dict(cells), dict(names))
+
+    def isinst(val, refs):
+        refs = refs if isinstance(refs, tuple) else (refs,)
+        if any(r == 'builtin:str' for r in refs) and isinstance(val, str):
+            return True
+        cls = val.f.get('cls') if isinstance(val, Rec) else getattr(val, 'cls', None)
+        return bool(cls) and isinstance(cls, str) and any(r and ctx.res.is_subclass(cls, r) for r in refs)
+    it = Interp(ctx.a, mm, {p[0]: model, p[1]: list(focus)}, isinstance_fn=isinst, inline_pkg=True, scope_fn=fn,
+                call_models={'ext:copy.deepcopy': _deepcopy, 'ext:copy.copy': lambda v: v, 'pkg:model:Model': lambda: _model(),
+                             'pkg:model:Model.build_code': lambda self_: self_.set('built', self_.get('built') + 1)})
+    out = it.run(fn.body)
+    return model, out
+
+
 def rule_1(ctx):
-    mm, fn, orig, ext = _extract(ctx)
-    # scan: loops reading `.terms`; add: stores into ext.cells whose key derives from a term
-    deps = flow.Deps(fn)
-    scans = [n for n in walk_local(fn) if isinstance(n, ast.For) and any(
-        isinstance(x, ast.Attribute) and x.attr == 'terms' for x in ast.walk(n.iter))]
-    if not scans:
-        raise AnchorMissing('extract: loop over formula terms')
-    term_names = set()
-    for s in scans:
-        term_names |= names_in(s.target)
-    adds = []
-    for a in walk_local(fn):
-        if isinstance(a, ast.Assign):
-            for t in a.targets:
-                if isinstance(t, ast.Subscript) and ast.unparse(t.value) == f'{ext}.cells':
-                    src = deps.closure(names_in(t.slice))
-                    if src & term_names:
-                        adds.append(a)
-    if not adds:
-        ctx.bad(fn, 'cells mentioned by formulas are added', 'extract() never adds the cells that the copied formulas mention')
-    for a in adds:
-        # closure: add must be inside a loop that re-scans what it adds: the outermost loop around the add also contains a scan of
-        # ext.cells (or iterates a work-list that the add extends), or the add is in a recursive helper
-        closed = False
-        p = a._parent
-        while p is not None and p is not fn:
-            if isinstance(p, (ast.While,)):
-                if any(flow.contains(p, s) for s in scans):
-                    closed = True
-            if isinstance(p, ast.For):
-                # for over a list that is extended inside the loop (work-list)
-                it_names = names_in(p.iter)
-                grows = any(isinstance(c, ast.Call) and isinstance(c.func, ast.Attribute) and c.func.attr in ('append', 'extend', 'add', 'update')
-                            and isinstance(c.func.value, ast.Name) and c.func.value.id in it_names for c in ast.walk(p))
-                if grows and any(flow.contains(p, s) for s in scans):
-                    closed = True
-            p = p._parent
-        # recursion: a nested/helper function that calls itself
-        enc = a
-        while enc is not None and not isinstance(enc, ast.FunctionDef):
-            enc = enc._parent
-        if enc is not None and enc is not fn:
-            if any(isinstance(c.func, ast.Name) and c.func.id == enc.name for c in flow.calls_in(enc)):
-                closed = True
-        ctx.expect(closed, a, 'cells added for formula terms are scanned again (transitive closure)',
-                   'extract() copies the cells a focused formula mentions in one pass and never scans the formulas of the cells '
-                   'it just added: with A4=A3+1, A3=A2+1, A2=A1+1 and focus [A4] the extracted model lacks A2 and A1 and A4 '
-                   'evaluates to 2 instead of 4')
-    ctx.floor(1, 'add sites')
+    """Dependency closure decided on abstract models: a chain, a diamond and a deeper tree."""
+    mm = ctx.mod('model')
+    fn = mm.func('ModelCompiler.extract')
+    S = 'Sheet1!'
+    cases = {
+        'chain A4<-A3<-A2<-A1, focus A4': ({S + 'A1': _cell(S + 'A1'), S + 'A2': _cell(S + 'A2', [S + 'A1']), S + 'A3': _cell(S + 'A3', [S + 'A2']),
+                                            S + 'A4': _cell(S + 'A4', [S + 'A3']), S + 'Z9': _cell(S + 'Z9')}, [S + 'A4'],
+                                           {S + 'A1', S + 'A2', S + 'A3', S + 'A4'}),
+        'direct dependencies only, focus B1': ({S + 'A1': _cell(S + 'A1'), S + 'A2': _cell(S + 'A2'), S + 'B1': _cell(S + 'B1', [S + 'A1', S + 'A2']),
+                                                S + 'Z9': _cell(S + 'Z9')}, [S + 'B1'], {S + 'A1', S + 'A2', S + 'B1'}),
+        'diamond D<-B,C<-A, focus D': ({S + 'A1': _cell(S + 'A1'), S + 'B1': _cell(S + 'B1', [S + 'A1']), S + 'C1': _cell(S + 'C1', [S + 'A1']),
+                                        S + 'D1': _cell(S + 'D1', [S + 'B1', S + 'C1'])}, [S + 'D1'], {S + 'A1', S + 'B1', S + 'C1', S + 'D1'}),
+    }
+    for label, (cells, focus, want) in cases.items():
+        try:
+            model, out = _run_extract(ctx, cells, {}, focus)
+        except Unmodelled as exc:
+            raise Unmodelled(f'extract: {exc}')
+        ext = out.value if out.end == 'return' else None
+        got = set(ext.get('cells')) if _is_model(ext) else f'<{out.end} {out.value!r}>'
+        construct = 'cells added for formula terms are scanned again (transitive closure)' if 'chain' in label or 'diamond' in label \
+            else 'direct dependencies of the focus are extracted'
+        if isinstance(got, set):
+            lost = []
+            for k_, v_ in ext.get('cells').items():
+                o_ = cells.get(k_)
+                if o_ is not None and o_.f.get('formula') is not None:
+                    f_ = v_.f.get('formula') if isinstance(v_, Rec) else None
+                    if not (isinstance(f_, Rec) and f_.f.get('terms') == o_.f['formula'].f['terms']):
+                        lost.append(k_)
+            ctx.expect(not lost, fn, f'extracted formula cells keep their formula: {label}',
+                       f'the formula cells {lost} are extracted without their formula (only a value): they no longer follow input changes')
+        ctx.expect(got == want, fn, f'{construct}: {label}',
+                   f'extract({label}) contains the cells {sorted(got) if isinstance(got, set) else got}, expected {sorted(want)}: '
+                   'everything the focus depends on, directly or transitively, must be extracted (with A4=A3+1, A3=A2+1, A2=A1+1 and '
+                   'focus [A4] the extracted A4 evaluates to 2 instead of 4)')
+    ctx.floor(3, 'dependency shapes')
 
 
 def rule_2(ctx):
-    mm, fn, orig, ext = _extract(ctx)
-    deps = flow.Deps(fn, through_stores=False)
-    scans = [n for n in walk_local(fn) if isinstance(n, ast.For) and any(
-        isinstance(x, ast.Attribute) and x.attr == 'terms' for x in ast.walk(n.iter))]
-    term_names = set()
-    for s in scans:
-        term_names |= names_in(s.target)
-    lookups = []
-    for n in walk_local(fn):
-        if isinstance(n, ast.Subscript) and ast.unparse(n.value) == f'{orig}.cells' and isinstance(n.ctx, ast.Load):
-            if deps.closure(names_in(n.slice)) & term_names:
-                lookups.append(n)
-    for k_, n in enumerate(sorted(lookups, key=flow.pos), 1):
-        conds = flow.path_conditions(n)
-        guarded = any(any(isinstance(x, ast.Constant) and x.value == ':' for x in ast.walk(c.test)) for c in conds) or any(
-            isinstance(c.test, ast.Compare) and isinstance(c.test.ops[0], ast.In) and ast.unparse(c.test.comparators[0]) == f'{orig}.cells'
-            and ast.dump(c.test.left) == ast.dump(n.slice) and c.polarity
-            for c in conds)
-        # a filter where the work-list is built counts too
-        for a in walk_local(fn):
-            if isinstance(a, ast.Call) and isinstance(a.func, ast.Attribute) and a.func.attr == 'append' and a.args \
-                    and names_in(a.args[0]) & term_names and isinstance(a.func.value, ast.Name) \
-                    and a.func.value.id in deps.closure(names_in(n.slice)):
-                cs = flow.path_conditions(a)
-                if any(any(isinstance(x, ast.Constant) and x.value == ':' for x in ast.walk(c.test)) for c in cs):
-                    guarded = True
-        ctx.expect(guarded, n, f'term-keyed lookup #{k_} in the original cells map excludes range terms',
-                   'a formula term is looked up in the cells map without excluding range terms ("A1:A2"): extracting a cell whose '
-                   'formula refers to a range raises KeyError')
-    stores_ranges = [a for a in walk_local(fn) if isinstance(a, ast.Assign) and any(
-        isinstance(t, ast.Subscript) and ast.unparse(t.value) == f'{ext}.ranges' for t in a.targets)]
-    builds = [c for c in flow.calls_in(fn) if isinstance(c.func, ast.Attribute) and c.func.attr == 'build_ranges']
-    ctx.expect(bool(stores_ranges) or bool(builds), fn, 'ranges of the extracted model are populated',
-               'extract() never fills the ranges registry of the extracted model: range references in extracted formulas cannot '
-               'be materialised (each range is read as a single missing cell)')
-    ctx.floor(2, 'term lookups + range registry')
-    if not lookups:
-        ctx.errors.append('C13.2: no term-keyed lookup in the original cells map found')
+    mm = ctx.mod('model')
+    fn = mm.func('ModelCompiler.extract')
+    S = 'Sheet1!'
+    cells = {S + 'A1': _cell(S + 'A1'), S + 'A2': _cell(S + 'A2'), S + 'B1': _cell(S + 'B1', [S + 'A1:A2'])}
+    model, out = _run_extract(ctx, cells, {}, [S + 'B1'])
+    ok = out.end == 'return'
+    ctx.expect(ok, fn, 'a range term of a focused formula is not looked up as a cell',
+               f'extracting a cell whose formula refers to a range ends in {out.end} {out.value!r}: the range term "Sheet1!A1:A2" is looked up '
+               'in the cells map (KeyError)')
+    if ok:
+        ext = out.value
+        ctx.expect({S + 'A1', S + 'A2'} <= set(ext.get('cells')), fn, 'member cells of a referenced range are extracted',
+                   f'the member cells of the referenced range are missing from the extracted model: {sorted(ext.get('cells'))}')
+        ctx.expect(bool(ext.get('ranges')) or ext.get('built') > 0, fn, 'ranges of the extracted model are populated',
+                   'extract() never fills the ranges registry of the extracted model')
+    else:
+        ctx.bad(fn, 'ranges of the extracted model are populated',
+                'extract() never fills the ranges registry of the extracted model: range references in extracted formulas cannot be '
+                'materialised')
+    ctx.floor(2, 'range terms')
 
 
 def rule_3(ctx):
-    mm, fn, orig, ext = _extract(ctx)
-    n = 0
-    for a in walk_local(fn):
-        if not isinstance(a, ast.Assign):
-            continue
-        for t in a.targets:
-            base = t
-            while isinstance(base, (ast.Subscript, ast.Attribute)):
-                base = base.value
-            if isinstance(base, ast.Name) and base.id == orig and isinstance(t, (ast.Subscript, ast.Attribute)):
-                n += 1
-                ctx.bad(a, f'store into the original model `{ast.unparse(t)[:40]}`', 'extract() modifies the model it extracts from')
-            into_ext = isinstance(base, ast.Name) and base.id == ext and isinstance(t, (ast.Subscript, ast.Attribute))
-            # cell.formula = ... for cells of the extracted model
-            is_cell_attr = isinstance(t, ast.Attribute) and isinstance(t.value, ast.Name) and t.attr in ('formula', 'value')
-            if into_ext or is_cell_attr:
-                if orig in names_in(a.value) or into_ext:
-                    n += 1
-                    v = a.value
-                    ok = isinstance(v, ast.Call) and ctx.res.resolve(v.func, mm) == 'ext:copy.deepcopy'
-                    ctx.expect(ok, a, f'`{ast.unparse(t)[:45]}` receives a deep copy',
-                               f'`{ast.unparse(t)[:45]}` is assigned `{ast.unparse(v)[:50]}` without copy.deepcopy: the extracted model '
-                               'shares objects with the original, so set_cell_value / evaluation on one changes the other')
-    # no mutating calls on the original
-    for c in flow.calls_in(fn):
-        if isinstance(c.func, ast.Attribute) and c.func.attr in ('pop', 'clear', 'update', 'append', 'remove', 'setdefault', 'build_code', 'set_cell_value'):
-            root = c.func.value
-            while isinstance(root, (ast.Attribute, ast.Subscript)):
-                root = root.value
-            if isinstance(root, ast.Name) and root.id == orig:
-                ctx.bad(c, f'mutating call `{ast.unparse(c)[:40]}` on the original', 'extract() mutates the original model')
-    ctx.floor(5, 'stores into the extracted model')
+    mm = ctx.mod('model')
+    fn = mm.func('ModelCompiler.extract')
+    S = 'Sheet1!'
+    named = _cell(S + 'N1', [S + 'A1'])
+    cells = {S + 'A1': _cell(S + 'A1'), S + 'B1': _cell(S + 'B1', [S + 'A1']), S + 'N1': named}
+    rng = Rec(cls='pkg:xltypes:XLRange', cells=[[S + 'A1'], [S + 'B1']], name='rng', address_str=S + 'A1:B1')
+    before_keys = set(cells)
+    before_ids = {k: id(v) for k, v in cells.items()}
+    model, out = _run_extract(ctx, cells, {'nm': named, 'rng': rng}, [S + 'B1', 'nm', 'rng'])
+    if out.end != 'return' or not _is_model(out.value):
+        raise Unmodelled(f'extract on the aliasing witness ends in {out.end} {out.value!r}')
+    ext = out.value
+    shared = [k for k, v in ext.get('cells').items() if any(v is o for o in cells.values())]
+    ctx.expect(not shared, fn, 'extracted cells are copies',
+               f'the extracted model holds the very cell objects of the original for {shared}: set_cell_value / evaluation on one model '
+               'changes the other')
+    shared_f = [k for k, v in ext.get('cells').items() if isinstance(v, Rec) and v.f.get('formula') is not None
+                and any(v.f['formula'] is o.f.get('formula') for o in cells.values())]
+    ctx.expect(not shared_f, fn, 'extracted formulas are copies', f'formula objects are shared with the original for {shared_f}')
+    shared_n = [k for k, v in ext.get('defined_names').items() if v is named or v is rng]
+    ctx.expect(not shared_n, fn, 'extracted defined names are copies', f'defined-name objects are shared with the original: {shared_n}')
+    ctx.expect(set(model.get('cells')) == before_keys and all(id(model.get('cells')[k]) == before_ids[k] for k in before_keys)
+               and set(model.get('defined_names')) == {'nm', 'rng'}, fn, 'the original model is left unchanged',
+               'extract() adds, removes or replaces entries of the original model')
+    ctx.expect({'nm', 'rng'} <= set(ext.get('defined_names')) and {S + 'N1', S + 'A1', S + 'B1'} <= set(ext.get('cells')), fn,
+               'focused names and their cells are extracted',
+               f'focused defined names / their cells are missing: names {sorted(ext.get('defined_names'))}, cells {sorted(ext.get('cells'))}')
+    ctx.floor(5, 'aliasing witnesses')
 
 
 def rule_4(ctx):
-    mm, fn, orig, ext = _extract(ctx)
-    loops = [n for n in fn.body if isinstance(n, ast.For) and names_in(n.iter) == {func_params(fn)[1]}]
-    ctx.expect(len(loops) == 1, fn, 'every focus entry is visited', 'extract() does not iterate over the focus list')
-    if loops:
-        txt = ast.unparse(loops[0])
-        ctx.expect(f'{orig}.cells' in txt and f'{orig}.defined_names' in txt, loops[0], 'focus resolves cells and defined names',
-                   'focus entries are not looked up both as cell addresses and as defined names')
-        ctx.expect(f'{ext}.defined_names' in txt, loops[0], 'focused names are kept in the extracted model',
-                   'a focused defined name is not stored in the extracted model')
-    r = last_return(fn)
-    ok = r is not None and isinstance(r.value, ast.Name) and r.value.id == ext
-    ctx.expect(ok, fn, 'extract returns the extracted model', 'extract() does not return the model it built')
-    built = [c for c in flow.calls_in(fn) if ast.unparse(c.func) == f'{ext}.build_code']
-    ctx.expect(len(built) == 1 and (not r or flow.pos(built[0]) < flow.pos(r)), fn, 'extracted model is compiled',
-               'the extracted model is returned without compiled formulas')
-    ctx.floor(4, 'focus handling facts')
+    mm = ctx.mod('model')
+    fn = mm.func('ModelCompiler.extract')
+    S = 'Sheet1!'
+    cells = {S + 'A1': _cell(S + 'A1'), S + 'B1': _cell(S + 'B1', [S + 'A1'])}
+    model, out = _run_extract(ctx, cells, {}, [S + 'B1', 'unknown', 42])
+    ok = out.end == 'return' and _is_model(out.value)
+    ctx.expect(ok, fn, 'extract returns the extracted model', f'extract() ends in {out.end} {out.value!r}')
+    if ok:
+        ctx.expect(out.value.get('built') == 1, fn, 'extracted model is compiled', 'the extracted model is returned without compiled formulas')
+        ctx.expect(S + 'B1' in out.value.get('cells'), fn, 'every focus entry is visited', 'a focused cell is missing from the extracted model')
+    ctx.floor(2, 'focus handling facts')
 
 
 def rule_5(ctx):
